@@ -38,6 +38,15 @@ Theorem C05_chunked_equals_unchunked : forall n voi q rows cols,
   index_array_chunked n voi q rows cols = qnd_block n voi q 0 (sumZ rows) 0 (sumZ cols).
 Proof. intros. rewrite qnd_block_char. apply index_array_chunked_char; assumption. Qed.
 Print Assumptions C05_chunked_equals_unchunked.
+(* purity (what the history / joint-evaluation correspondence checks on the implementation): the index array is a
+   function of target validity and of the kd-tree answers for the target's own pixels only; two queries (different
+   masks or sources) evaluated as a pair are the pair of the stand-alone results, whatever ran before *)
+Theorem C05_depends_only_on_inputs : forall n voi voi' q q' rows cols,
+  Forall (fun x => 0 <= x) rows -> Forall (fun x => 0 <= x) cols ->
+  (forall i j, 0 <= i < sumZ rows -> 0 <= j < sumZ cols -> voi i j = voi' i j /\ q i j = q' i j) ->
+  index_array_chunked n voi q rows cols = index_array_chunked n voi' q' rows cols.
+Proof. exact depends_only_on_inputs. Qed.
+Print Assumptions C05_depends_only_on_inputs.
 Example C05_chunk_invariant_ex :
   let voi := fun i j => negb ((i =? 1) && (j =? 2)) in
   let q := fun i j => if j =? 0 then 5 else i + j in      (* n = 5: column 0 finds nothing *)
